@@ -1,6 +1,7 @@
 (* C08 — scalar resolver model (saphyr/src/scalar.rs, loader.rs parse_f64, Rust std number grammars). *)
 From Coq Require Import List NArith ZArith Bool Lia.
 Import ListNotations.
+Require Export ResolverTables.
 Open Scope Z_scope.
 
 Definition chr := N.
@@ -109,12 +110,14 @@ Definition s_dinf := lit [46;105;110;102]%N.    Definition s_dInf := lit [46;73;
 Definition s_dnan := lit [46;110;97;110]%N.     Definition s_dNaN := lit [46;78;97;78]%N.     Definition s_dNAN := lit [46;78;65;78]%N.
 Definition inl (s : str) (l : list str) := existsb (str_eqb s) l.
 
-Definition float_char (c : chr) : bool := is_dig c || ch c 43 || ch c 45 || ch c 46 || ch c 101 || ch c 69.
+Definition in_ranges (c : chr) (l : list (N * N)) : bool := existsb (fun r => (fst r <=? c)%N && (c <=? snd r)%N) l.
+Definition float_char (c : chr) : bool := in_ranges c f64_guard_chars.
 Definition parse_f64 (v : str) : option fval :=
-  if inl v [s_dinf; s_dInf; s_dINF; 43%N :: s_dinf; 43%N :: s_dInf; 43%N :: s_dINF] then Some (FInf false)
-  else if inl v [45%N :: s_dinf; 45%N :: s_dInf; 45%N :: s_dINF] then Some (FInf true)
-  else if inl v [s_dnan; s_dNaN; s_dNAN] then Some FNan
-  else if forallb float_char v then rust_parse_f64 v else None.
+  if inl v f64_pos_inf_words then Some (FInf false)
+  else if inl v f64_neg_inf_words then Some (FInf true)
+  else if inl v f64_nan_words then Some FNan
+  else if f64_guarded then (if forallb float_char v then rust_parse_f64 v else None)
+  else rust_parse_f64 v.
 
 (* ---------------- saphyr: Scalar::parse_from_cow (scalar.rs 150-178) ---------------- *)
 Inductive scalar := SNull | SBool (b : bool) | SInt (z : Z) | SFloat (f : fval) | SStr (s : str).
@@ -130,9 +133,9 @@ Definition s_null := lit [110;117;108;108]%N.  Definition s_NULL := lit [78;85;7
 Definition s_true := lit [116;114;117;101]%N.  Definition s_false := lit [102;97;108;115;101]%N.
 
 Definition parse_tail (v : str) : scalar :=
-  if inl v [s_tilde; s_null; s_NULL] then SNull
-  else if str_eqb v s_true then SBool true
-  else if str_eqb v s_false then SBool false
+  if inl v null_words then SNull
+  else if inl v true_words then SBool true
+  else if inl v false_words then SBool false
   else match parse_i64 v with
        | Some i => SInt i
        | None => match parse_f64 v with Some f => SFloat f | None => SStr v end
@@ -142,54 +145,40 @@ Definition parse_tail (v : str) : scalar :=
 Definition starts_signed (s : str) : bool := match s with c :: _ => ch c 43 || ch c 45 | [] => false end.
 Definition from_str_radix_ns (s : str) (radix : N) : option Z := if starts_signed s then None else from_str_radix s radix.
 
-Definition parse_from_cow (v : str) : scalar :=
-  match strip_prefix [48;120]%N v with
-  | Some number => match from_str_radix_ns number 16 with Some i => SInt i | None => parse_tail v end
-  | None =>
-    match strip_prefix [48;111]%N v with
-    | Some number => match from_str_radix_ns number 8 with Some i => SInt i | None => parse_tail v end
-    | None =>
-      match strip_prefix [43]%N v with
-      | Some number => match from_str_radix_ns number 10 with Some i => SInt i | None => parse_tail v end
-      | None => parse_tail v
+(* the `if let Some(number) = v.strip_prefix(p) {..} else if ..` chain over the generated prefix table:
+   the first prefix that matches decides; a failed parse falls through to the literal/number tail *)
+Fixpoint parse_prefixed (pre : list (list N * N)) (v : str) : scalar :=
+  match pre with
+  | [] => parse_tail v
+  | (p, radix) :: rest =>
+      match strip_prefix p v with
+      | Some number => match from_str_radix_ns number radix with Some i => SInt i | None => parse_tail v end
+      | None => parse_prefixed rest v
       end
-    end
   end.
+Definition parse_from_cow (v : str) : scalar := parse_prefixed int_prefixes v.
 
-(* ---------------- YAML 1.2 core schema, stated independently ---------------- *)
-Definition all_in (p : chr -> bool) (s : str) : bool := forallb p s.
-Definition nonempty (s : str) : bool := match s with [] => false | _ => true end.
-Definition is_oct (c : chr) := (48 <=? c)%N && (c <=? 55)%N.
-Definition is_hexd (c : chr) := is_dig c || ((97 <=? c)%N && (c <=? 102)%N) || ((65 <=? c)%N && (c <=? 70)%N).
-Definition sign_split (s : str) : bool * str :=
-  match s with c :: r => if ch c 43 then (false, r) else if ch c 45 then (true, r) else (false, s) | [] => (false, []) end.
 
-(* [-+]?[0-9]+ | 0o[0-7]+ | 0x[0-9a-fA-F]+ ; value as Z (unbounded) *)
-Definition core_int (s : str) : option Z :=
-  match strip_prefix [48;120]%N s with
-  | Some d => if nonempty d && all_in is_hexd d then digits_val 16 d 0 else None
-  | None =>
-    match strip_prefix [48;111]%N s with
-    | Some d => if nonempty d && all_in is_oct d then digits_val 8 d 0 else None
-    | None => let '(neg, d) := sign_split s in
-              if nonempty d && all_in is_dig d then
-                match digits_val 10 d 0 with Some v => Some (if neg then - v else v) | None => None end
-              else None
-    end
-  end.
+(* ---------------- saphyr: Scalar::parse_from_cow_and_metadata (scalar.rs) ----------------
+   [plain]: style == ScalarStyle::Plain; [tg]: (handle, suffix) of the resolved tag; None = BadValue *)
+Definition w_bool : str := [98;111;111;108]%N.
+Definition w_int : str := [105;110;116]%N.
+Definition w_float : str := [102;108;111;97;116]%N.
+Definition w_null : str := [110;117;108;108]%N.
+(* Rust bool::from_str *)
+Definition parse_bool (v : str) : option bool :=
+  if str_eqb v s_true then Some true else if str_eqb v s_false then Some false else None.
 
-Definition core_null (s : str) : bool :=
-  inl s [s_null; lit [78;117;108;108]%N; s_NULL; s_tilde; []].
-Definition core_bool (s : str) : option bool :=
-  if inl s [s_true; lit [84;114;117;101]%N; lit [84;82;85;69]%N] then Some true
-  else if inl s [s_false; lit [70;97;108;115;101]%N; lit [70;65;76;83;69]%N] then Some false else None.
-
-(* [-+]? ( \. [0-9]+ | [0-9]+ ( \. [0-9]* )? ) ( [eE] [-+]? [0-9]+ )?  |  [-+]?\.(inf|Inf|INF) | \.(nan|NaN|NAN) *)
-Definition core_float (s : str) : option fval :=
-  if inl s [s_dnan; s_dNaN; s_dNAN] then Some FNan else
-  let '(neg, b) := sign_split s in
-  if inl b [s_dinf; s_dInf; s_dINF] then Some (FInf neg) else
-  match rust_number b with
-  | Some (m, e) => Some (FDec neg m e)
-  | None => None
+Definition parse_from_cow_and_metadata (v : str) (plain : bool) (tg : option (str * str)) : option scalar :=
+  if negb plain then Some (SStr v) else
+  match tg with
+  | Some (handle, suffix) =>
+      if str_eqb handle core_tag_prefix then
+        if str_eqb suffix w_bool then option_map SBool (parse_bool v)
+        else if str_eqb suffix w_int then option_map SInt (parse_i64 v)
+        else if str_eqb suffix w_float then option_map SFloat (parse_f64 v)
+        else if str_eqb suffix w_null then (if inl v tagged_null_words then Some SNull else None)
+        else Some (SStr v)
+      else Some (SStr v)
+  | None => Some (parse_from_cow v)
   end.
